@@ -10,6 +10,9 @@ CLAIMS = {
  "C08": dict(ref="§4 C08",
    text="Proof by induction over the representation invariant WF (valid integer ids, coherent demoted cache, no shared set objects): for an arbitrary well-formed region state with fully symbolic pixel sets, every public Region operation (add_pixels, get_demoted, _renorm, union incl. finer/coarser operands, without, intersect, symmetric_difference, get_area, __init__) preserves WF, has its set-algebra postcondition on the deepest-level view, leaves the other operand's view unchanged, and normalising operations leave no patch of sky represented twice. Set-iteration loops are cut by functional invariants over a ghost done-set. The depth is enumerated (1..3 quick, 1..4 thorough), contents are unbounded.",
    note="bounded in depth (maxdepth enumerated), unbounded in content; python set semantics, healpy returns valid ids, pickle identity assumed; get_area = card(V)*A(D) not decided deductively (native cross-check only)"),
+ "C10": dict(ref="§4 C10",
+   text="Proof for every image shape, WCS, region and negate flag: mask_plane blanks pixel (row r, col c) iff it was blank or its centre W(c+1, r+1) is outside the region (inside with negate) -- via the loop invariant on the (col,row) index table, the origin argument of wcs_pix2world, row-major reshape and boolean-mask assignment; other pixel values, the region and the identity of the array are unchanged; negate is the complement. mask_file masks every plane of a cube with the same wcs/region/negate and writes the result; mask_table keeps row k iff not inside(k) (inside with negate) using the named columns in (ra, dec) order with degin=True.",
+   note="astropy WCS pix2world contract (origin semantics), Region.sky_within contract (C08/C09), numpy indexing/reshape, astropy Table row selection assumed; floats as reals"),
  "C12": dict(ref="§4 C12",
    text="Proof for every well-formed region state (symbolic sets, cache filled or not, depth 1..3/4): _uniq lists 4*4^d+p for all levels 1..maxdepth (encoding injective across levels), write_fits stores that list as int64 column NPIX in extension 1 with MOCORDER=maxdepth, ORDERING=NUNIQ; write_reg prints exactly one polygon per stored pixel built from healpy.boundaries(2**d, p, step=1, nest=True) with (ra/15, dec) per corner (set-loop invariant on the output multiset); save dumps the whole object and load returns it.",
    note="bounded in depth; astropy fits writer, healpy.boundaries, SkyCoord formatting, pickle, sorted/map contracts assumed"),
